@@ -3,3 +3,4 @@ import PyhfModel.Interp
 import PyhfModel.Spec
 import PyhfModel.Params
 import PyhfModel.Tensor
+import PyhfModel.Decl
